@@ -565,9 +565,16 @@ class constrain_coords:
     self_shape = TERM
     params = dict(x=Int, y=Int, ignore_scrolling=Bool)
     result = Tup(Int, Int)
-    invariant = staticmethod(GI)
+    # constrain_coords is also called while GI is being re-established (csi_set_scroll assigns the two margins one
+    # after the other): it is verified under exactly what it needs -- a positive size, and valid margins only when it
+    # looks at them -- and its callers owe just that (call-inv / call-pre obligations at every call site)
+    invariant = staticmethod(lambda s: both(s.width >= 1, s.height >= 1))
     replayable = False
     pure_spec = staticmethod(lambda old, a: constrained(old, a.x, a.y, a.ignore_scrolling))
+
+    def requires(s, a):
+        return implies(both(s.modes.constrain_scrolling, neg(a.ignore_scrolling)),
+                       both(0 <= s.scrollregion_start, s.scrollregion_start <= s.scrollregion_end, s.scrollregion_end <= s.height - 1))
 
     def ensures(old, s, a, result):
         x, y = result
